@@ -113,13 +113,10 @@ pub fn compare(text: &str, st: Option<&mut Stats>) -> CheckResult {
         ensure!(g.get_type() == w.kind, "c04:kind", "command {}: kind {} want {}", i, g.get_type(), w.kind);
         ensure!(g.get_hangul_count() == w.h, "c04:syllables", "command {}: syllable count {} want {}", i, g.get_hangul_count(), w.h);
         ensure!(g.get_dot_count() == w.d, "c04:dots", "command {}: dot count {} want {}", i, g.get_dot_count(), w.d);
-        let prefix = format!("{:?}", g.get_area());
-        if prefix != w.area.prefix() {
-            fail!("c04:area", "command {}: area {} want {}", i, prefix, w.area.prefix());
-        }
-        let infix = format!("{}", g.get_area());
-        if infix != w.area.infix() {
-            fail!("c04:area-display", "command {}: area prints {} want {}", i, infix, w.area.infix());
+        // the tree itself (public enum), not one of its textual notations: those belong to C08
+        let tree = RArea::from_impl(g.get_area());
+        if tree != w.area {
+            fail!("c04:area", "command {}: area {} want {}", i, tree.prefix(), w.area.prefix());
         }
         ensure!(g.get_location() == w.loc, "c04:location", "command {}: location {:?} want {:?}", i, g.get_location(), w.loc);
         ensure!(g.get_raw() == w.raw, "c04:raw", "command {}: raw text {:?} want {:?}", i, g.get_raw(), w.raw);
